@@ -5,10 +5,10 @@ Model: `SFV/Model/JsDeps.lean` (`listen` = `CWLDependencyListener`, `paramDeps` 
 `eval`/`run` = instrumented evaluation recording the fields of `inputs` that are read).
 Helpers: `SFV/Lemmas/JsDeps*.lean`. Only the property theorems are here.
 
-The full-strength property ("for every expression: reads ⊆ deps, and the analysis is defined whenever the
-expression evaluates") is **false of the code**; the `_false` theorems prove its negation on concrete witnesses
-(each replayed on the real `resolve_dependencies` by the check and recorded as a known finding). The `_partial`
-theorems prove it for the fragment `Frag.handled` (see the model file): `inputs` and its aliases are used only as
+The property has two halves. *Definedness* ("the analysis never fails on an expression that evaluates") holds at
+full strength since fix 254d061 of the code (`deps_defined`). *Soundness* ("reads ⊆ deps") is **false of the code**;
+the `_false` theorems prove its negation on concrete witnesses (each replayed on the real `resolve_dependencies`
+by the check and recorded as a known finding). The `_partial` theorem proves it for the fragment `Frag.handled` (see the model file): `inputs` and its aliases are used only as
 the object of `.k` / `['k']` or as the whole right-hand side of a top-level assignment statement; function
 declarations / expressions at the top level whose bodies use their own parameters and variables and the
 aliases known at the point of declaration (parameter shadowing included). -/
@@ -74,10 +74,11 @@ theorem deps_sound_partial (prog : Js) (h : handled prog = true) : DepsSound pro
       · simp [initSt] at h1
       · exact List.mem_eraseDups.mpr h1
 
-/-- **Definedness on the handled fragment**: the listener raises no exception. -/
-theorem deps_defined_partial (prog : Js) (h : handled prog = true) : ∃ deps, resolve prog = .ok deps := by
-  simp only [handled, Bool.and_eq_true] at h
-  obtain ⟨n', ks, hl⟩ := top_listen_ok prog false initNames h.2 rfl
+/-- **Definedness at full strength** (after fix 254d061): for every syntax tree of the modelled JavaScript the listener
+raises no exception — in particular never on an expression that evaluates successfully. -/
+theorem deps_defined (prog : Js) : DepsDefined prog := by
+  intro fuel reads _
+  obtain ⟨⟨n', ks⟩, hl⟩ := listen_total prog initNames
   exact ⟨ks.eraseDups, by simp [resolve, hl, Except.map]⟩
 
 /-! ### non-vacuity: handled programs with aliasing, shadowing, a kill, a conditional and a function expression -/
@@ -125,35 +126,28 @@ theorem deps_sound_false :
   · intro h; exact absurd (h [] (by decide) 10 ["c"] (by decide) "c" (by simp)) (by simp)
   · intro h; exact absurd (h [] (by decide) 10 ["class"] (by decide) "class" (by simp)) (by simp)
 
-/-- `var k = 'a'; return inputs[k];` -/
+/-- `var k = 'a'; return inputs[k];` — computed index: skipped by the listener since fix 254d061 (it raised
+`AttributeError` before), the field read is still missed -/
 def wComputed : Js := seq (varInit "k" (str "a")) (seq (ret (idx (ident "inputs") (ident "k"))) skip)
-/-- `return inputs[0];` -/
-def wNumeric : Js := seq (ret (idx (ident "inputs") (num 0))) skip
-/-- `var x; var y; x = inputs; function f(){ x = y; } return 0;` -/
+/-- `return inputs['a' + 'b'];` -/
+def wConcat : Js := seq (ret (idx (ident "inputs") (bin (str "a") (str "b")))) skip
+/-- `var x; var y; x = inputs; function f(){ x = y; } return x.q;` (raised `KeyError` before the fix; now analysed,
+and soundly: the alias is kept) -/
 def wInnerKill : Js := seq (varDecl "x") (seq (varDecl "y") (seq (assign "x" (ident "inputs"))
-  (seq (fdecl "f" [] (seq (assign "x" (ident "y")) skip)) (seq (ret (num 0)) skip))))
+  (seq (fdecl "f" [] (seq (assign "x" (ident "y")) skip)) (seq (ret (dot (ident "x") "q")) skip))))
 
-/-- the analysis raises `AttributeError` / `KeyError` on expressions that evaluate successfully -/
-theorem deps_defined_false : ¬ DepsDefined wComputed ∧ ¬ DepsDefined wNumeric ∧ ¬ DepsDefined wInnerKill := by
-  refine ⟨?_, ?_, ?_⟩
-  · intro h
-    obtain ⟨d, hd⟩ := h 10 ["a"] (by decide)
-    have : resolve wComputed = .error .attributeError := by decide
-    rw [this] at hd; simp at hd
-  · intro h
-    obtain ⟨d, hd⟩ := h 10 ["0"] (by decide)
-    have : resolve wNumeric = .error .attributeError := by decide
-    rw [this] at hd; simp at hd
-  · intro h
-    obtain ⟨d, hd⟩ := h 10 [] (by decide)
-    have : resolve wInnerKill = .error .keyError := by decide
-    rw [this] at hd; simp at hd
+theorem deps_sound_computed_false : ¬ DepsSound wComputed ∧ ¬ DepsSound wConcat := by
+  refine ⟨?_, ?_⟩
+  · intro h; exact absurd (h [] (by decide) 10 ["a"] (by decide) "a" (by simp)) (by simp)
+  · intro h; exact absurd (h [] (by decide) 10 ["ab"] (by decide) "ab" (by simp)) (by simp)
+
+example : resolve wInnerKill = .ok ["q"] ∧ run 10 wInnerKill = some ["q"] := by decide
 
 /-- none of the witnesses is in the handled fragment (the partial theorems do not cover them) -/
 theorem witnesses_not_handled :
     handled wVarInit = false ∧ handled wParen = false ∧ handled wArg = false ∧ handled wLocal = false ∧
     handled wUntakenKill = false ∧ handled wReserved = false ∧ handled wComputed = false ∧
-    handled wNumeric = false ∧ handled wInnerKill = false := by decide
+    handled wConcat = false := by decide
 
 /-! ### parameter references -/
 
